@@ -37,7 +37,7 @@ func WithActions(g *Grammar, mode string) (*Grammar, bool) {
 	tokImp := false
 	for i, a := range g.Alts {
 		b := a
-		explicit := mode == "explicit" || mode == "token" || (mode == "mixed" && i%2 == 0)
+		explicit := mode == "explicit" || mode == "token" || mode == "literal" || (mode == "mixed" && i%2 == 0)
 		if explicit {
 			args := []string{"$Context", fmt.Sprint(i)}
 			k := 0
@@ -54,10 +54,36 @@ func WithActions(g *Grammar, mode string) (*Grammar, bool) {
 				}
 			}
 			b.Action = "rt.A(" + strings.Join(args, ", ") + ")"
+			if mode == "literal" {
+				// the action also carries a Go literal from the menu next to the hex spelling of its value: the action
+				// text must reach the generated code unaltered (rt.L compares the two at run time)
+				l := ActionLiterals[i%len(ActionLiterals)]
+				b.Action = fmt.Sprintf("rt.L(%s, \"%x\").A(%s)", l.Src, l.Val, strings.Join(args, ", "))
+			}
 		} else {
 			b.Action = ""
 		}
 		out.Alts = append(out.Alts, b)
 	}
 	return out, tokImp
+}
+
+// ActionLiteral is a Go string-valued expression (Src, as written in the action) and its value.
+type ActionLiteral struct{ Src, Val string }
+
+// ActionLiterals: blanks, tabs and line breaks inside interpreted, raw and rune literals, format verbs, template
+// syntax, quotes, non-ASCII text.
+var ActionLiterals = []ActionLiteral{
+	{`"a  b"`, "a  b"},
+	{"\"a\tb\"", "a\tb"}, // a real TAB inside an interpreted literal
+	{"`r  w\t.\n  x`", "r  w\t.\n  x"},
+	{`"%s %d %% %v"`, "%s %d %% %v"},
+	{`"{{.}} {{end}}"`, "{{.}} {{end}}"},
+	{`"q\"q" + "'"`, `q"q'`},
+	{`string(' ') + string('\t') + "   "`, " \t   "},
+	{`"é→𝄞"`, "é→𝄞"},
+	{`"<< <"`, "<< <"},
+	{`"\\n\\"`, `\n\`},
+	{`" lead and trail "`, " lead and trail "},
+	{`"X[0] X[1]"`, "X[0] X[1]"},
 }
